@@ -7,7 +7,7 @@ from ..driver import f2h, fl, h2f
 RULE = ("every shipped omega class and alias x chain length N (2..200 quick, ..10^4 thorough for the closed forms; Koyama <= 60, NFJC <= 12/30) x parameters in the "
         "documented range x k on a log grid 1e-4..1e3 AND every k of random Domains (from dr and from dk, incl. dk = 0.1 = NFJC quadrature nodes); the implementation "
         "is compared with the Lean model (closed form and ring loop; Koyama with the implementation's own kernel parameters) and, as the property predicate, with the "
-        "defining pair sum evaluated in long double from the model's own w_tau(k), plus finiteness, <= N, k->0 / k->inf limits, element-wise probes (single-k and "
+        "defining pair sum evaluated in long double from the model's own w_tau(k), plus finiteness, <= N, k->0 / k->inf limits, element-wise, object history (same object, second grid) and input purity probes (single-k and "
         "permuted evaluation, bitwise) and ValueError for invalid Koyama parameters. Non-trivial = N >= 3 and k spans both sides of k*Rg = 1; distinct = distinct case")
 EXTRA_TRUSTED = ["DiscreteKoyama: moment closed forms (kernel_base) and the bending-energy root solve are taken from the implementation as parameters B_tau, A^2_tau",
                  "NFJC: the quadrature values omega_tau(k) are not modelled; only finiteness, limits, <= N and element-wise evaluation are checked on the implementation"]
@@ -67,6 +67,21 @@ def elementwise(ctx, case, name, make):
     perm = np.array(make().calculate(k[::-1].copy()), dtype=float)[::-1]
     if not np.array_equal(perm, full, equal_nan=True): ok = False
     ctx.pred('eval', case, ok, '%s: value at one k depends on the other k in the array' % name, key='C11:elementwise')
+    # ONE object evaluated on a second grid of the same shape and the same end points (nothing may be remembered), and purity
+    if len(k) >= 3:
+        obj = make()
+        with np.errstate(all='ignore'):
+            first = np.array(obj.calculate(k.copy()), dtype=float)
+            k2 = k.copy(); k2[1:-1] = k2[1:-1] * 0.5 + 0.5 * k2[0]
+            second = np.array(obj.calculate(k2.copy()), dtype=float)
+            fresh2 = np.array(make().calculate(k2.copy()), dtype=float)
+            again = np.array(obj.calculate(k.copy()), dtype=float)
+        okh = np.array_equal(second, fresh2, equal_nan=True) and np.array_equal(again, first, equal_nan=True) and np.array_equal(first, full, equal_nan=True)
+        ctx.pred('eval', case, okh, '%s: a second evaluation of the same object on another grid of the same shape/end points differs from a fresh object' % name, key='C11:stateful')
+    kk = k.copy(); kk0 = kk.copy()
+    with np.errstate(all='ignore'):
+        make().calculate(kk)
+    ctx.pred('eval', case, np.array_equal(kk, kk0), '%s.calculate modified the wavenumber array it was given (e.g. Domain.k)' % name, key='C11:purity')
 
 def suite_eval(ctx, case):
     name = case['cls']; N = case.get('N', 1); k = np.array(case['k'], dtype=float); p = case.get('p', {})
